@@ -26,7 +26,7 @@ for pid in ids:
         "evidence_file": "evidence/%s.json" % pid,
         "replay_cmd_template": "python3 run.py replay {path}",
         "engine": "cbmc-dfcc",
-        "level_claimed": {"category": "proof", "text": c["text"], "design_ref": "DESIGN.md section 4, " + pid},
+        "level_claimed": {"category": c.get("level", "proof"), "text": c["text"], "design_ref": "DESIGN.md section 4, " + pid},
         "level_note": c["note"],
         "technique": c["technique"]})
 m = {"version": 1, "setup_cmd": "python3 run.py setup",
